@@ -144,6 +144,18 @@ func VerifChannelSnapshot(c *Channel) (int, int, int, int, int) {
 	return a, b, d, e, len(c.memoryMsgChan)
 }
 
+// VerifInFlightOwners returns, per client id, how many messages the channel's
+// in-flight map currently attributes to it.
+func VerifInFlightOwners(c *Channel) map[int64]int {
+	c.inFlightMutex.Lock()
+	defer c.inFlightMutex.Unlock()
+	m := make(map[int64]int)
+	for _, msg := range c.inFlightMessages {
+		m[msg.clientID]++
+	}
+	return m
+}
+
 // VerifName returns the instance name the hooks use for a channel.
 func VerifName(c *Channel) string { return vc(c) }
 
